@@ -63,7 +63,7 @@ def run(tier, seed):
     ok, info = prep(PROP)
     ob, dis = proof_gate(rep, PROP, ok, info)
     rng = random.Random(seed)
-    n = 40 if tier == "quick" else 400
+    n = 400 if tier == "quick" else 1500
     jobs, plan = [], []
     for ci in range(n):
         k = rng.randint(2, 4)
@@ -109,7 +109,7 @@ def run(tier, seed):
                                   {"packages": e["pkgs"], "order": o, "files": e["files"], "global": e["glob"], "differs": diff,
                                    "alone": {f: singles[i].get(f) for f in diff}, "together": {f: got.get(f) for f in diff}})
     # concurrent in-process generations vs serial
-    conc_n = 6 if tier == "quick" else 40
+    conc_n = 12 if tier == "quick" else 40
     binary = HARNESS_BIN
     race = os.path.join(BUILD, "verifharness-race")
     if tier != "quick":
